@@ -1,9 +1,70 @@
+import SwayVerif.Model.Dispatch
 import SwayVerif.Driver.Util
-/-! Driver for C11 (stub — replace `answer`; keep `run`). -/
-namespace SwayVerif.Driver.C11
-open SwayVerif.Driver
+/-!
+Driver for C11.
 
-def answer (_line : String) : String := "unimplemented agree=0 prop=0"
+Case: `abi <name-hex,..> fb=<0|1> call <name-hex|-> via=<abi|abi2|raw>` — method names in `contract_fns`
+order, whether a `#[fallback]` is declared, the name the call carries.
+Implementation result: `table=<names-hex>:<key/len/off/idx,..>:<F|R> ran=<idx|fallback|revert|…>
+args_ok=<0|1> ret_ok=<0|1>` — the dispatch table extracted from the generated `__entry` source and what
+was observed on the VM.
+
+`agree` = the model's table (`buildTable`) rendered in the same format equals the dumped one AND the
+model's `dispatch` target equals what ran. `prop` = `propHolds` on the observation.
+-/
+namespace SwayVerif.Driver.C11
+open SwayVerif.Dispatch SwayVerif.Driver
+
+def showTarget : Target → String
+  | .method i => toString i
+  | .fallback => "fallback"
+  | .revert => "revert"
+  | .oob => "oob"
+
+def parseTarget (s : String) : Option Target :=
+  if s = "fallback" then some .fallback
+  else if s = "revert" then some .revert
+  else s.toNat?.map .method
+
+def showTable (t : Table) (fb : Bool) : String :=
+  let arms := (flatten t.groups).map fun (k, e) => s!"{k}/{e.len}/{e.off}/{e.idx}"
+  let armsS := if arms.isEmpty then "-" else ",".intercalate arms
+  s!"{showHexBytes t.names}:{armsS}:{if fb then "F" else "R"}"
+
+def kvOf (key : String) (ts : List String) : Option String :=
+  ts.findSome? fun t => if t.startsWith (key ++ "=") then some ((t.drop (key.length + 1)).toString) else none
+
+def parseNames (s : String) : Option (List Method) :=
+  (s.splitOn ",").foldr (fun t acc => match acc, hexBytes? t with
+    | some l, some b => some (⟨b⟩ :: l)
+    | _, _ => none) (some [])
+
+def sumLen (ms : List Method) : Nat := ms.foldl (fun a m => a + m.name.length) 0
+
+def maxGroup (g : Groups) : Nat := g.foldl (fun a p => max a p.2.length) 0
+
+def answer (line : String) : String :=
+  let (c, i) := splitCase line
+  match c with
+  | ["abi", namesS, fbS, "call", callS, viaS] =>
+    match parseNames namesS, kvOf "fb" [fbS], hexBytes? callS, kvOf "table" i, kvOf "ran" i,
+          kvOf "args_ok" i, kvOf "ret_ok" i with
+    | some ms, some fbv, some call, some tableS, some ranS, some aok, some rok =>
+      let fb := fbv == "1"
+      let t := buildTable ms
+      let target := dispatch t fb call
+      let modelTable := showTable t fb
+      let ranT := parseTarget ranS
+      let agree := modelTable == tableS && ranT == some target
+      let prop := match ranT with
+        | some r => propHolds ms fb call r (aok == "1") (rok == "1")
+        | none => ranS == "builderr"   -- contract did not build: no observation, not a violation (agree=0)
+      let hit := (indexOfName call ms).isSome
+      let shared := decide (t.names.length < sumLen ms)
+      s!"{showTarget target} agree={b01 agree} prop={b01 prop} hit={b01 hit} fb={b01 fb} {viaS} " ++
+        s!"nmeth={ms.length} shared={b01 shared} maxgroup={maxGroup t.groups} table_ok={b01 (modelTable == tableS)}"
+    | _, _, _, _, _, _, _ => "bad-fields agree=0 prop=0"
+  | _ => "bad-op agree=0 prop=0"
 
 def run : IO Unit := do
   lineLoop (← IO.getStdin) (← IO.getStdout) answer
